@@ -210,7 +210,7 @@ func c07Op(sc c07Scen, c *c07Ctx) (delivered bool, sigs cashu.BlindedSignatures,
 }
 
 func runC07(r *core.Run) {
-	r.Rule("scenarios: mint, swap, melt x Lightning outcome {success, pending then success, pending then failed, failed, error/not-found}, internally settled melt, pending-melt resolution through a quote poll and through a state check (payment succeeded / failed meanwhile), runtime keyset rotation; for each a trace run counts the n DB/LN calls of the operation, then for k = 0..n the k-th call is replaced by (a) a crash (sentinel panic, instance abandoned, LoadMint on the same directory) and (b) an injected storage/Lightning error, followed by a restart and the adversarial follow-up (state checks, polls until stable, restore, re-submission of the identical request, re-spend of the inputs, spend of restored outputs, re-mint), judged for safety, durability and atomicity; non-trivial = distinct (scenario, mode, k) executions in which the injection point was reached")
+	r.Rule("scenarios: mint, swap, melt x Lightning outcome {success, pending then success, pending then failed, failed, error/not-found}, internally settled melt, pending-melt resolution through a quote poll and through a state check (payment succeeded / failed meanwhile), runtime keyset rotation; for each a trace run counts the n DB/LN calls of the operation, then for k = 0..n the k-th call is replaced by (a) a crash (sentinel panic, instance abandoned, LoadMint on the same directory) and (b) an injected storage/Lightning error, followed by a restart and the adversarial follow-up (state checks, polls until stable, restore, re-submission of the identical request, re-spend of the inputs, spend of restored outputs, re-mint), judged for safety, durability and atomicity; further scenarios: melt and swap of inputs that were spent before (nothing may be paid or signed whatever fails), and a mint request for a quote whose one-second invoice was paid in time and has lapsed; non-trivial = distinct (scenario, mode, k) executions in which the injection point was reached")
 	r.Assume("a crash between two calls leaves exactly the effects of the completed calls on disk (each storage call is one SQLite transaction, synchronous=FULL); start-up rotation runs inside LoadMint before the storage wrapper can be installed and is covered through the runtime RotateKeyset it calls")
 	succ := lnmodel.PayPlan{Answer: lnmodel.ASucceeded}
 	pend := lnmodel.PayPlan{Answer: lnmodel.APending, Truth: lnmodel.InFlight}
